@@ -436,3 +436,20 @@ Section CSearch.
            (ix_entry ix) ef_search max_ef_search retries
            (S (length (ix_nodes ix))) q k.
 End CSearch.
+
+(* ------------------------------------------------------------------ generated-fact vocabulary *)
+(* awaited steps of HnswIndex::flush_with and of the collection-level Hnsw::flush *)
+Inductive flush_step := FNodes | FIds | FMeta | FCommit | FPurge.
+
+(* the write sequence of one flush, following a step order *)
+Definition step_writes (nodes : list (Z * blob)) (ids : list Z) (entry : Z * nat) (removed purge : list Z)
+           (s : flush_step) : list write :=
+  match s with
+  | FNodes => map (fun kb : Z * blob => WNode (fst kb) (snd kb)) nodes
+  | FIds => [WIds ids]
+  | FMeta => [WMeta entry removed]
+  | FCommit => []
+  | FPurge => map WDelNode purge
+  end.
+Definition flush_writes (order : list flush_step) nodes ids entry removed purge : list write :=
+  flat_map (step_writes nodes ids entry removed purge) order.
